@@ -907,3 +907,247 @@ def c06(ctx, res):
             res.oblige("C06.5 Entry::clone builds key and value with Clone::clone on the source's slots (no bitwise duplication) and copies the size",
                        good, detail=why, key="C06.5:entry-clone", loc=span_str(b.span), rule="C06.5 clone through Clone",
                        msg="Entry::clone: %s" % "; ".join(why))
+
+
+# =====================================================================================================================
+#  C04: faithful key -> value map
+# =====================================================================================================================
+def hash_functions(ctx):
+    """crate-local fns that compute a key hash: contain a hash site directly and return u64"""
+    return [b for b in ctx.facts.bodies if ctx.eff.direct[b.path]["hash"] and b.j.get("output", {}).get("s") == "u64"]
+
+
+def c04(ctx, res):
+    r, cg, eff = ctx.roles, ctx.cg, ctx.eff
+    te = _te(ctx, False)
+    hf = hash_functions(ctx)
+    res.floor("C04 hash functions", len(hf), 1)
+    hnames = set(b.path for b in hf)
+    # each hash function: build_hasher on its first argument, hash the second, finish
+    for b in hf:
+        res.count("C04.1 hash functions")
+        rs = te.all_results(b, max_paths=4)
+        good = len(rs) == 1
+        why = []
+        if good:
+            calls = [(norm(x[1]), [show(a) for a in x[2]]) for x in rs[0].calls]
+            bh = [c for c in calls if c[0].endswith("BuildHasher::build_hasher") or "BuildHasher>::build_hasher" in c[0]]
+            hh = [c for c in calls if c[0].endswith("Hash::hash") or "Hash>::hash" in c[0]]
+            fin = [c for c in calls if c[0].endswith("Hasher::finish") or "Hasher>::finish" in c[0]]
+            if not (len(bh) == 1 and bh[0][1][0] in ("p1", "&*p1")):
+                why.append("does not build the hasher from its first argument")
+            if not (len(hh) == 1 and hh[0][1][0] in ("p2", "&*p2")):
+                why.append("does not hash its second argument exactly once")
+            if not (len(fin) == 1 and show(rs[0].ret).startswith("<") and "finish" in show(rs[0].ret)):
+                why.append("does not return Hasher::finish of that state")
+        else:
+            why.append("%d paths" % len(rs))
+        res.oblige("C04.1 `%s` = BuildHasher(arg1).hash(arg2).finish()" % b.path, not why, detail=why, key="C04.1:%s:hash-fn" % b.path,
+                   loc=span_str(b.span), rule="C04.1 hash function", msg="`%s`: %s" % (b.path, "; ".join(why)))
+    # eq closure factories: closures handed to table lookups compare the captured key with the stored key through Borrow
+    n_sites = 0
+    for b in ctx.facts.bodies:
+        if b.file.endswith("mem_size.rs"):
+            continue
+        tcalls = [c for c in cg.calls.get(b.path, []) if c.model and c.model.get("table") in ("find", "remove", "insert", "insert_grow")]
+        if not tcalls:
+            continue
+        try:
+            paths = te.paths(b, max_paths=60)
+        except TooComplex:
+            res.violate("C04.1:%s:too-complex" % b.path, "too many paths", span_str(b.span), {}, "C04.1")
+            continue
+        seen = set()
+        for p in paths:
+            pr = te.eval_path(b, p)
+            for (bb, full, argt, val, c) in pr.calls:
+                if c is None or not (c.model and c.model.get("table") in ("find", "remove", "insert", "insert_grow")):
+                    continue
+                if (bb,) in seen:
+                    continue
+                seen.add((bb,))
+                n_sites += 1
+                res.count("C04.1 table call sites")
+                cls = c.model["table"]
+                tab = show(argt[0])
+                probs = []
+                # which cache object?
+                owner = None
+                for i in range(1, b.arg_count + 1):
+                    if tab in ("&*p%d.%s" % (i, r.TABLE), "&p%d.%s" % (i, r.TABLE), "&**p%d.0.%s" % (i, r.TABLE)):
+                        owner = "p%d" % i
+                local_table = owner is None
+                h = argt[1]
+                if cls in ("find", "remove"):
+                    eqc = argt[2] if len(argt) > 2 else None
+                    key_h = _hash_key(h, hnames, owner, r, probs)
+                    key_e = None
+                    if eqc is not None and eqc[0] == "call":
+                        fb = ctx.facts.body(norm_path(eqc[1], ctx))
+                        if fb is None or not _is_eq_factory(ctx, fb):
+                            probs.append("the equality argument `%s` is not the key-equivalence closure" % show(eqc)[:100])
+                        else:
+                            key_e = eqc[2][0]
+                    elif eqc is not None and eqc[0] == "closure":
+                        probs.append("ad-hoc equality closure (not judged)")
+                    if key_h is not None and key_e is not None and strip_refs(key_h) != strip_refs(key_e) and \
+                            not _same_key(key_h, key_e) and not _same_key(key_e, key_h):
+                        probs.append("the hash is computed from `%s` but equality compares with `%s`" % (show(key_h)[:100], show(key_e)[:100]))
+                else:
+                    ent = argt[2]
+                    if h[0] == "param":
+                        pass      # hash supplied by the caller: judged at the caller (below)
+                    else:
+                        key_h = _hash_key(h, hnames, owner if not local_table else None, r, probs, allow_closure=True)
+                        if key_h is not None and not _key_of(key_h, ent):
+                            probs.append("inserted with the hash of `%s`, which is not the inserted entry's key (`%s`)" % (show(key_h)[:120], show(ent)[:80]))
+                res.oblige("C04.1 table %s in `%s` uses hash(hasher of the cache, k) and compares with the same k" % (cls, b.path), not probs,
+                           detail=probs, key="C04.1:%s:%s-site" % (b.path, cls), loc=c.loc, rule="C04.1 hash/eq agreement",
+                           msg="table %s in `%s`: %s" % (cls, b.path, "; ".join(probs)))
+    res.floor("C04.1 table call sites", n_sites, 6)
+    # callers that pass a precomputed hash together with an entry: the hash must be that entry's key's
+    for b in ctx.facts.bodies:
+        if b.file.endswith("mem_size.rs"):
+            continue
+        for c in cg.calls.get(b.path, []):
+            if c.target is None:
+                continue
+            tins = c.target.j.get("inputs") or []
+            hpos = [i for i, t in enumerate(tins) if t.get("s") == "u64"]
+            epos = [i for i, t in enumerate(tins) if t.get("k") == "adt" and t.get("local") and t["name"] in (r.entry, _unhinged(ctx))]
+            if not hpos or not epos or not any(cls in ("insert", "insert_grow") for (_p, (cls, _c)) in eff.trans(c.target)["table"]):
+                continue
+            res.count("C04.1 hash-passing call sites")
+            probs = []
+            for p in te.paths(b, max_paths=60):
+                pr = te.eval_path(b, p)
+                for (bb, full, argt, val, cc) in pr.calls:
+                    if cc is not c:
+                        continue
+                    h, e = argt[hpos[0]], argt[epos[0]]
+                    if h[0] == "param":
+                        continue
+                    kh = _hash_key(h, hnames, None, r, probs, allow_closure=True)
+                    if kh is not None and not _key_of(kh, e):
+                        probs.append("passes the hash of `%s` with the entry `%s`" % (show(kh)[:100], show(e)[:100]))
+            uniq = sorted(set(probs))
+            res.oblige("C04.1 `%s` passes to `%s` the hash of the very entry it passes" % (b.path, c.target.path), not uniq, detail=uniq,
+                       key="C04.1:%s:passes-hash:%s" % (b.path, c.target.name), loc=c.loc, rule="C04.1 hash/eq agreement",
+                       msg="`%s` -> `%s`: %s" % (b.path, c.target.path, "; ".join(uniq)))
+    # ---- C04.3 results are projected from the entry the lookup returned
+    te2 = _te(ctx, True)
+    n_res = 0
+    for b in r.pub_methods():
+        out = b.j["output"]
+        if not (out.get("k") == "adt" and out.get("name") == "std::option::Option"):
+            continue
+        inner = out["args"][0]
+        if inner.get("k") not in ("ref", "tuple"):
+            continue
+        # only direct lookups (bodies that call the table or read the seal themselves, after inlining of helpers)
+        try:
+            rs = te2.all_results(b, max_paths=20)
+        except TooComplex:
+            continue
+        for pr in rs:
+            rt = pr.ret
+            if rt[0] == "call" and "Option" in rt[1] and "::map" in rt[1] and rt[2][1][0] == "closure":
+                cb = ctx.facts.body(rt[2][1][1])
+                crs = te2.all_results(cb, max_paths=6) if cb else []
+                for cr in crs:
+                    n_res += 1
+                    s_ = show(cr.ret)
+                    ents = set()
+                    import re
+                    for m in re.finditer(r"assume_init_ref\(&(\**[^()]*?)\.(%s|%s)\)" % (r.E_KEY, r.E_VAL), s_):
+                        ents.add(m.group(1))
+                    if not ents:
+                        continue      # a projection of another method's (already judged) result
+                    ok = len(ents) == 1
+                    res.count("C04.3 projected results")
+                    res.oblige("C04.3 `%s` projects its result from the one entry the lookup produced" % b.path, ok, detail=s_[:200],
+                               key="C04.3:%s:projection" % b.path, loc=span_str(b.span), rule="C04.3 result provenance",
+                               msg="`%s` builds its result from %d different entries: %s" % (b.path, len(ents), s_[:200]))
+    res.assumptions.append("hashbrown's probing/collision handling/growth are trusted (lmv/models.py); Borrow coherence of user key types")
+
+
+def norm_path(full, ctx):
+    """callee `full` string -> body path (strip generic args of the last segment)"""
+    n = full
+    if n in ctx.facts.by_path:
+        return n
+    # strip trailing ::<...>
+    if n.endswith(">") and "::<" in n:
+        base = n[:n.rindex("::<")]
+        if base in ctx.facts.by_path:
+            return base
+    return n
+
+
+def _unhinged(ctx):
+    for n, a in ctx.facts.adts.items():
+        if a["kind"] == "struct" and n != ctx.roles.entry:
+            tys = [f["ty"] for f in a["variants"][0]["fields"]]
+            if len(tys) == 3 and sum(1 for t in tys if t.get("k") == "param") == 2 and any(t.get("s") == "usize" for t in tys) and a["vis"] != "pub":
+                if not n.endswith("TooLarge"):
+                    return n
+    return None
+
+
+def _is_eq_factory(ctx, fb):
+    """fn(k) -> closure |x| k.eq(x.key().borrow())"""
+    te = _te(ctx, False)
+    rs = te.all_results(fb, max_paths=3)
+    if len(rs) != 1 or rs[0].ret[0] != "closure":
+        return False
+    cb = ctx.facts.body(rs[0].ret[1])
+    if cb is None or show(rs[0].ret[2][0]) not in ("p1", "&*p1"):
+        return False
+    te2 = _te(ctx, True)
+    crs = te2.all_results(cb, max_paths=3)
+    if len(crs) != 1:
+        return False
+    s_ = show(crs[0].ret)
+    r = ctx.roles
+    return ("PartialEq>::eq(" in s_ or "PartialEq::eq(" in s_) and "Borrow" in s_ and (".%s)" % r.E_KEY) in s_ and "p1.0" in s_.replace("*", "").replace("&", "")
+
+
+def _hash_key(h, hnames, owner, r, probs, allow_closure=False):
+    """for a hash term `hashfn(hb, key)` return the key term; record problems"""
+    if h[0] == "call":
+        base = h[1].split("::<")[0]
+        if base in hnames or any(base == hn for hn in hnames):
+            hb = show(h[2][0])
+            if owner is not None and hb not in ("&*%s.%s" % (owner, r.HB), "&%s.%s" % (owner, r.HB)):
+                probs.append("hash built with `%s`, not with the cache's own hash builder" % hb)
+            elif owner is None and ("." + r.HB) not in hb:
+                probs.append("hash built with `%s`, not with a cache's hash builder" % hb)
+            return h[2][1]
+        if allow_closure and "as std::ops::Fn" in h[1]:
+            # hasher closure applied to the entry: key of its argument
+            return ("keyof", h[2][1])
+    probs.append("the hash operand `%s` is not produced by the key-hash function" % show(h)[:120])
+    return None
+
+
+def _same_key(a, b):
+    """b is `X::key(&E)` and a is the raw key value E was built from"""
+    if b[0] == "call" and norm(b[1]).endswith("::key") and b[2]:
+        return _key_of(a, b[2][0])
+    return False
+
+
+def _key_of(key_term, entry_term):
+    """is key_term the key of entry_term (…::key(&E) / keyof(E) with E the same value)?"""
+    e = strip_refs(entry_term)
+    if key_term[0] == "keyof":
+        k = key_term[1]
+        while k[0] == "agg" and k[1] == "tuple":
+            k = k[4][0][1]
+        return strip_refs(k) == e or show(e) in show(k)
+    ks = show(strip_refs(key_term))
+    if key_term[0] in ("param", "field", "deref", "ref") and ks in show(entry_term) and ks != show(e):
+        return True     # the raw key value from which the entry was built
+    if key_term[0] == "call" and norm(key_term[1]).endswith("::key"):
+        return strip_refs(key_term[2][0]) == e or show(strip_refs(key_term[2][0])) in show(e) or show(e) in show(key_term[2][0])
+    return False
